@@ -382,3 +382,7 @@ M('cli-probe-no-restore-on-exception', ['C12'], CLI, "    except Exception:\n   
 
 # ------------------------------------------------------------------------- shapes of the independently seeded changes
 M('seed-C13-prune-rebase-off-by-one', ['C13'], RL, "            if (read_idx := self.read_idx - idx) >= 0:", "            if (read_idx := self.read_idx - idx) > 0:", ['C13.R2'])
+M('read-skips-a-file', ['C13'], RL, "                    if (read_idx := read_idx + 1) >= nlogfiles:  # if on last file then it is probably still being written so don't close", "                    if (read_idx := read_idx + 2) >= nlogfiles:  # if on last file then it is probably still being written so don't close", ['C13.R4'])
+M('read-exhausted-not-closed', ['C13'], RL, "                    read_file.close()\n\n                    self.read_file = read_file = None\n                    self.read_idx  = read_idx", "                    self.read_file = read_file = None\n                    self.read_idx  = read_idx", ['C13.R4'])
+M('refresh-closes-same-file', ['C13'], RL, "                ret   = 2 if len(logfiles) > (read_idx + 1) else 1 if logfile.size > (old_size or 0) else 0\n                close = False\n", "                ret   = 2 if len(logfiles) > (read_idx + 1) else 1 if logfile.size > (old_size or 0) else 0\n", ['C13.R5'])
+M('refresh-newer-or-equal', ['C13'], RL, "            if logfile.timestamp > old_timestamp:\n                ret = 2", "            if logfile.timestamp >= old_timestamp:\n                ret = 2", ['C13.R5'])
